@@ -80,6 +80,10 @@ func (e *Eval) instr(fr *Frame, in ssa.Instruction, st *State, cur string) (stri
 			}
 			r := c.Define(fr.prefix+x.Name(), c.Sort(t), e.load(st, v, t))
 			e.noteVal(t, r)
+			switch t.Underlying().(type) {
+			case *types.Slice, *types.Struct:
+				c.Assert(e.typeInv(t, r)) // values stored in the heap are well-formed
+			}
 			e.guardCheck(fr, st, v, cur, false)
 			if v.A != nil && v.A.Kind == "field" && len(v.A.Path) == 0 {
 				if _, isMap := t.Underlying().(*types.Map); isMap {
